@@ -227,7 +227,7 @@ def table (nt : Nat) : Prog :=
         ([ParenLeft], seqs [call0 nExpr, consume ParenRight, push [.Parenthesized]])]
         (fail .unexpectedToken 1))
   -- parse_reference
-  | 29 => seqs [call nAmpLoop (.const 126), consume Identifier, call nStepsLoop (.const 127), derefTail]
+  | 29 => seqs [call nAmpLoop (.const 127), consume Identifier, call nStepsLoop (.const 127), derefTail]
   -- parse_deref_steps_list; counter = steps still allowed
   | 30 => ifZero (fail .maxDepth 0)
       (opt [BracketLeft]
